@@ -37,6 +37,7 @@ type c17Scenario struct {
 	Threads []c17Op
 	Fresh   bool // every execution in a fresh process (lazy initialisation is part of the scenario)
 	Long    bool // many scheduling points: one preemption less than the other scenarios
+	NoRace  bool // not part of the free-running race-detector pass (holds a recorded finding that would end the pass)
 }
 
 func c17Scenarios() []c17Scenario {
@@ -53,6 +54,7 @@ func c17Scenarios() []c17Scenario {
 		{Name: "with-root-same-element-shared-typed-root", Threads: []c17Op{{Kind: "ExpandResponseWithRoot", Variant: 6, Elem: "/responses/RR", Cache: "shared", Root: "shared-typed"}, {Kind: "ExpandResponseWithRoot", Variant: 6, Elem: "/responses/RR", Cache: "shared", Root: "shared-typed"}}},
 		{Name: "loaded-meta-schema-expanded-in-place-vs-refs-into-it", Long: true, Threads: []c17Op{{Kind: "MetaLoadExpand", Variant: 1}, {Kind: "MetaExpand2", Variant: 2}}},
 		{Name: "gob-and-json-encode-shared-document", Threads: []c17Op{{Kind: "GobEncode", Variant: 3}, {Kind: "GobEncode", Variant: 3}, {Kind: "Marshal", Variant: 3}}},
+		{Name: "shared-cache-schemas-with-an-id", Threads: []c17Op{{Kind: "ExpandSchemaWithBasePath", Variant: 101, Elem: "/definitions/A", Cache: "shared"}, {Kind: "ExpandSchemaWithBasePath", Variant: 101, Elem: "/definitions/A", Cache: "shared"}}},
 		{Name: "first-calls-race-on-lazy-init", Fresh: true, Threads: []c17Op{{Kind: "MetaExpand"}, {Kind: "ExpandSpec", Variant: 2}}},
 	}
 }
@@ -78,6 +80,9 @@ func (sh *c17Shared) fingerprint() string {
 func c17Body(op c17Op, sh *c17Shared) func() interface{} {
 	return func() interface{} {
 		b := c16Universe(maxInt(op.Variant, 1))
+		if op.Variant >= 100 {
+			b = idScenarios()[op.Variant-100] // schemas that declare an id (C18's id scenarios)
+		}
 		cs := &expCase{built: *b, noGlobalLoader: true}
 		if op.Root == "shared-typed" {
 			cs.sharedRoots = sh.roots
@@ -334,7 +339,9 @@ func c17Judge(c *Ctx, si int, e c17Exec, bound int, report bool) string {
 func c17RunCase(c *Ctx, raw []byte) string {
 	var probe map[string]interface{}
 	if json.Unmarshal(raw, &probe) == nil && probe["racepass"] == true {
-		c17RacePass(c)
+		for _, v := range c17RacePass(true).viols {
+			c.Violate(v)
+		}
 		return "racepass"
 	}
 	var cs c17Case
@@ -398,9 +405,26 @@ func c17Run(c *Ctx) {
 	}
 	c.Bound("preemptions", fmt.Sprint(bound))
 	c.Bound("threads", "2 (one scenario with 3)")
-	if c.Shard == 0 {
-		c17RacePass(c)
+	// the auxiliary free-running pass runs beside the exploration (another process, other cores)
+	raceDone := make(chan c17RaceResult, 1)
+	if c.Shard == c.N-1 {
+		quick := c.Quick()
+		go func() { raceDone <- c17RacePass(quick) }()
+	} else {
+		raceDone <- c17RaceResult{}
 	}
+	defer func() {
+		r := <-raceDone
+		for _, v := range r.viols {
+			c.Violate(v)
+		}
+		if r.passes > 0 {
+			c.Count("auxiliary_race_detector_passes", r.passes)
+		}
+		if r.note != "" {
+			c.Note(r.note)
+		}
+	}()
 	scs := c17Scenarios()
 	for si, sc := range scs {
 		if c.Expired() {
@@ -476,7 +500,7 @@ func racePassMain(args []string) {
 	}
 	n := 0
 	for _, sc := range c17Scenarios() {
-		if sc.Fresh {
+		if sc.Fresh || sc.NoRace {
 			continue
 		}
 		for i := 0; i < iters; i++ {
@@ -504,14 +528,20 @@ func racePassMain(args []string) {
 }
 
 // c17RacePass runs the auxiliary pass (thorough tier) and turns a detector report into a violation.
-func c17RacePass(c *Ctx) {
+type c17RaceResult struct {
+	viols  []Violation
+	passes int64
+	note   string
+}
+
+func c17RacePass(quick bool) (res c17RaceResult) {
 	bin := os.Getenv("VERIF_RACE_BIN")
 	if _, err := os.Stat(bin); err != nil || bin == "" {
-		c.Note("auxiliary race-detector pass skipped (no -race build)")
+		res.note = "auxiliary race-detector pass skipped (no -race build)"
 		return
 	}
 	iters := "25"
-	if !c.Quick() {
+	if !quick {
 		iters = "150"
 	}
 	for _, procs := range []string{"2", "16"} {
@@ -519,18 +549,18 @@ func c17RacePass(c *Ctx) {
 		cmd.Env = append(os.Environ(), "GOMAXPROCS="+procs, "GORACE=halt_on_error=1 exitcode=66")
 		var stderr bytes.Buffer
 		cmd.Stderr = &stderr
-		out, err := cmd.Output()
-		c.Count("auxiliary_race_detector_passes", 1)
+		_, err := cmd.Output()
+		res.passes++
 		if err != nil && strings.Contains(stderr.String(), "DATA RACE") {
-			c.Violate(Violation{Oracle: "concurrency", Class: "data-race(go race detector, free-running)", Detail: tail(stderr.String(), 3000),
+			res.viols = append(res.viols, Violation{Oracle: "concurrency", Class: "data-race(go race detector, free-running)", Detail: tail(stderr.String(), 3000),
 				Features: map[string]string{"symptom": "data-race-detector", "sigx": "GOMAXPROCS=" + procs},
 				Case:     map[string]interface{}{"racepass": true, "gomaxprocs": procs, "note": "free-running schedule: the report is the artefact; re-run `vcheck-race racepass`"}})
 			return
 		} else if err != nil {
-			c.Note("auxiliary race-detector pass ended abnormally: " + tail(stderr.String(), 300))
+			res.note = "auxiliary race-detector pass ended abnormally: " + tail(stderr.String(), 300)
 		}
-		_ = out
 	}
+	return
 }
 
 func init() {
